@@ -45,6 +45,12 @@ func TestCheck(t *testing.T) {
 		r.Set("histories_abandoned_fraction", float64(r.Counter("histories_abandoned_store_differs_from_model_after_cleanup"))/float64(r.Counter("sys_histories")+1))
 		r.Require(r.Counter("sys_reclaim_steps_usable") >= int64(r.N(40, 1000)), "too few reclaim steps left the store as the model expects (reclamation is broken: see C18); the reclaim scenarios of C07 were not exercised")
 		r.Require(r.Counter("sys_quota_reported_without_status_entry") >= 300, "too few reports that list a held quota without a status entry")
+		r.Require(r.Counter("sys_limit_changes_racing_with_reports") >= 300 && r.Counter("sys_histories_with_realistic_identities") >= 100 && r.Counter("sys_histories_with_more_than_10_clients") >= 100,
+			"too few racing limit changes / realistic identities / large client counts")
+		r.Require(r.Counter("sys_reinit_upstream-recreated") >= 30 && r.Counter("sys_reinit_leader-restart") >= 30 && r.Counter("sys_reports_claiming_quota_after_reinit") >= 200,
+			"too few re-initialisations (upstream deleted and re-created, leadership lost and regained) followed by reports")
+		r.Require(r.Counter("sys_rejected_reports") >= 60 && r.Counter("sys_schema_removed_and_readded") >= 40 && r.Counter("sys_other_upstream_reports") >= 200,
+			"too few rejected reports / schema removals / reports to the second upstream")
 		r.Require(r.Counter("sys_report_errors") == 0, "reports were refused by the server (harness/server set-up problem)")
 	})
 }
@@ -436,6 +442,13 @@ type history struct {
 	trace    []string
 	dead     bool // a violation was found: stop (later answers would only repeat it)
 	nontriv  bool
+
+	realIDs    bool     // identities as gateways really have them (ip:port, IPv6, dots, upper case, long, non-ASCII)
+	extras     []string // gateways that heartbeat to this server but never report on this upstream (they count as clients)
+	other      string   // a second upstream on the same server (own schemas), used by the same instances
+	deferApply bool     // changeLimit only prepares the change (reportConcurrently delivers it while reports are in flight)
+	pending    *proxyv1alpha1.UpstreamCluster
+	pendingOld *schema
 }
 
 func (h *history) logf(format string, a ...interface{}) {
@@ -464,8 +477,30 @@ func (h *history) schemaByName(n string) *schema {
 	return nil
 }
 
+func (h *history) identity() string {
+	n := h.nextID
+	if !h.realIDs {
+		return fmt.Sprintf("gw-%d", n)
+	}
+	switch h.g.Intn(7) {
+	case 0:
+		return fmt.Sprintf("10.0.%d.7:6443-%d-ab", n, 4000+n)
+	case 1:
+		return fmt.Sprintf("[fd00::%x]:6443-%d-k8s", n+10, n)
+	case 2:
+		return fmt.Sprintf("GW-Node.%d.Example", n)
+	case 3:
+		return fmt.Sprintf("gw.%d-a_b", n)
+	case 4:
+		return fmt.Sprintf("%s-%d", strings.Repeat("long-prefix.", 7), n) // > 63 characters
+	case 5:
+		return fmt.Sprintf("gw-é中-%d", n)
+	}
+	return fmt.Sprintf("gw-%d", n)
+}
+
 func (h *history) join() {
-	w := &gw{id: fmt.Sprintf("gw-%d", h.nextID), quota: map[string]proxyv1alpha1.LimitItemDetail{}, demand: map[string]float64{}}
+	w := &gw{id: h.identity(), quota: map[string]proxyv1alpha1.LimitItemDetail{}, demand: map[string]float64{}}
 	h.nextID++
 	for _, s := range h.schemas {
 		w.demand[s.Name] = []float64{0, 0.05, 0.3, 1.0}[h.g.Intn(4)]
@@ -478,6 +513,9 @@ func (h *history) join() {
 func (h *history) heartbeatAll() {
 	for _, w := range h.gws {
 		_ = h.srv.Limiter.Heartbeat(w.id)
+	}
+	for _, id := range h.extras {
+		_ = h.srv.Limiter.Heartbeat(id)
 	}
 }
 
@@ -607,8 +645,20 @@ func (h *history) consistency(after record, w *gw, rc reportRec, s *schema) {
 // some order; for ANY order the statement implies  sum_after <= max(sum_before, limit) + #(new instances answered 1):
 // while the sum is within the limit a step keeps it there unless it answers 1, and only a new instance's 1 adds to the sum
 // (an existing honest instance has a quota >= 1 already); while the sum is above the limit nothing grows but such 1s.
-func (h *history) reportConcurrently(ws []*gw) {
+func (h *history) reportConcurrently(ws []*gw, racingLimitChange ...bool) {
 	before := readRecord(h.srv, h.upstream)
+	// optionally the global limit of one schema changes WHILE the reports are in flight: every report is then answered
+	// under the old or under the new limit, so an answer is legal if it is legal under either, and the sum is bounded by
+	// the larger of the two limits
+	var old *schema
+	var pending *proxyv1alpha1.UpstreamCluster
+	if len(racingLimitChange) > 0 && racingLimitChange[0] {
+		h.deferApply = true
+		h.changeLimit()
+		h.deferApply = false
+		old, pending = h.pendingOld, h.pending
+		h.r.Count("sys_limit_changes_racing_with_reports", 1)
+	}
 	type job struct {
 		w    *gw
 		cond *proxyv1alpha1.RateLimitCondition
@@ -628,6 +678,16 @@ func (h *history) reportConcurrently(ws []*gw) {
 			<-start
 			j.recs = h.send(j.w, j.cond, j.recs)
 		}(j)
+	}
+	if pending != nil {
+		wg.Add(1)
+		go func() {
+			defer wg.Done()
+			<-start
+			if err := h.srv.ApplyUpstream(pending); err != nil {
+				h.r.Count("sys_report_errors", 1)
+			}
+		}()
 	}
 	close(start)
 	wg.Wait()
@@ -681,7 +741,11 @@ func (h *history) reportConcurrently(ws []*gw) {
 			s := h.schemaByName(rc.Schema)
 			cur := before.per[j.w.id][rc.Schema]
 			h.classify(before, s, cur)
-			for _, f := range JudgeAnswer(s.kind(), int64(s.Limit), int64(s.Burst), int64(rc.Answer), int64(rc.Burst)) {
+			fs := JudgeAnswer(s.kind(), int64(s.Limit), int64(s.Burst), int64(rc.Answer), int64(rc.Burst))
+			if old != nil && old.Name == s.Name && len(fs) > 0 && len(JudgeAnswer(old.kind(), int64(old.Limit), int64(old.Burst), int64(rc.Answer), int64(rc.Burst))) == 0 {
+				fs = nil // answered under the limit that was in force before the racing change
+			}
+			for _, f := range fs {
 				bad = true
 				if below && f.Inv != "answer-below-1" {
 					continue
@@ -700,6 +764,9 @@ func (h *history) reportConcurrently(ws []*gw) {
 	for i := range h.schemas {
 		s := &h.schemas[i]
 		L := int64(s.Limit)
+		if old != nil && old.Name == s.Name && int64(old.Limit) > L {
+			L = int64(old.Limit)
+		}
 		bound := before.sum[s.Name]
 		if bound < L {
 			bound = L
@@ -717,6 +784,7 @@ func (h *history) reportConcurrently(ws []*gw) {
 func (h *history) changeLimit() {
 	i := h.g.Intn(len(h.schemas))
 	s := &h.schemas[i]
+	oldSchema := *s
 	rec := readRecord(h.srv, h.upstream)
 	S := rec.sum[s.Name]
 	old := int64(s.Limit)
@@ -763,6 +831,10 @@ func (h *history) changeLimit() {
 			s.Burst = s.Limit
 		case 1:
 			s.Burst = clamp32(2 * nl)
+		case 2:
+			if h.g.Bool() {
+				s.Burst = []int32{1, clamp32(nl / 2)}[h.g.Intn(2)]
+			}
 		}
 		if s.Burst < 1 {
 			s.Burst = 1
@@ -775,6 +847,11 @@ func (h *history) changeLimit() {
 		}
 	} else {
 		h.r.Count("sys_limit_raised", 1)
+	}
+	if h.deferApply {
+		h.pending, h.pendingOld = buildCluster(h.upstream, h.schemas), &oldSchema
+		h.logf("limit of %s: %d -> %d (burst %d), delivered WHILE the next reports are being answered; sum on record %d", s.Name, old, nl, s.Burst, S)
+		return
 	}
 	if err := h.srv.ApplyUpstream(buildCluster(h.upstream, h.schemas)); err != nil {
 		h.r.Count("sys_report_errors", 1)
@@ -968,9 +1045,17 @@ func (h *history) run() {
 				}
 				ws = sub
 			}
-			h.reportConcurrently(ws)
-		case x < 88:
+			h.reportConcurrently(ws, h.g.Chance(0.25))
+		case x < 84:
 			h.changeLimit()
+		case x < 85:
+			h.reinit()
+		case x < 86:
+			h.rejectedReport()
+		case x < 87:
+			h.schemaRemovedAndReAdded()
+		case x < 88:
+			h.otherUpstreamTraffic()
 		case x < 92:
 			if len(h.gws) < 12 {
 				h.join()
@@ -986,22 +1071,42 @@ func (h *history) run() {
 }
 
 func system(r *vkit.R) {
-	n := r.N(600, 20000)
+	n := r.N(900, 20000)
 	if vkit.Instrumented() {
 		vkit.Sched.Enable(uint64(r.Seed), 0.05, 0.02, 0.001)
 		defer vkit.Sched.Disable()
 	}
 	r.Parallel(n, 16, func(i int, g *vkit.Rand) {
-		h := &history{r: r, g: g, upstream: fmt.Sprintf("up%d", i%7), scenario: "system"}
+		h := &history{r: r, g: g, upstream: fmt.Sprintf("up%d", i%7), scenario: "system", realIDs: i%4 == 1}
 		h.srv = bed.NewLimiterServer(bed.LimiterOptions{LeadAll: true, Shards: 1 + i%3})
+		if h.realIDs {
+			r.Count("sys_histories_with_realistic_identities", 1)
+		}
 		ns := g.PickInt([]int{1, 1, 2, 2, 3, 4})
 		for k := 0; k < ns; k++ {
 			s := schema{Name: fmt.Sprintf("s%d", k), TB: g.Bool()}
 			s.Limit = g.PickI32([]int32{1, 3, 10, 12, 50, 100, 500, 1000, 1000, 3000, 10000, 100000})
 			if s.TB {
 				s.Burst = clamp32(int64(s.Limit) * int64(g.Range(1, 2)))
+				if g.Chance(0.25) {
+					s.Burst = []int32{1, clamp32(int64(s.Limit)/2 + 1)}[g.Intn(2)] // a global burst below the global qps
+				}
 			}
 			h.schemas = append(h.schemas, s)
+		}
+		// the same server also serves a second upstream, with its own schemas of the same names
+		h.other = h.upstream + "-other"
+		if err := h.srv.ApplyUpstream(buildCluster(h.other, []schema{{Name: "s0", Limit: 40}, {Name: "s1", TB: true, Limit: 400, Burst: 400}})); err != nil {
+			r.Inconclusive("ApplyUpstream failed: " + err.Error())
+			return
+		}
+		if g.Chance(0.3) { // many gateways heartbeat to this server, only some use this upstream (client count > 10)
+			for k, ne := 0, g.Range(6, 15); k < ne; k++ {
+				id := fmt.Sprintf("other-gw-%d", k)
+				h.extras = append(h.extras, id)
+				_ = h.srv.Limiter.Heartbeat(id)
+			}
+			r.Count("sys_histories_with_more_than_10_clients", 1)
 		}
 		// the upstream is registered before anything concurrent happens (rateLimiter.upstreamLock is an unsynchronised map)
 		if err := h.srv.ApplyUpstream(buildCluster(h.upstream, h.schemas)); err != nil {
